@@ -6,8 +6,12 @@ ID = 'C17'
 GENS = ['units']
 TARGETS = ['BC.Props.C17']
 PROP_FILES = ['BC/Props/C17.lean']
+# source ties: function bodies regenerated from the Python source by translate/t_funcs.py, proved equal to the model functions
+SRC = {'module': 'BC.Props.C17Src', 'file': 'BC/Props/C17Src.lean',
+       'theorems': ['C17_src_velocity_disabled', 'C17_src_velocity_for_temp', 'C17_src_calc_powder_sens']}
 THEOREMS = ['C17_disabled', 'C17_linear_anchored', 'C17_anchored', 'C17_calibration_reproduces', 'C17_calibration_rejects']
 STATEMENTS = {
+    'C17_src_calc_powder_sens': "SOURCE TIE (all C17_src_*): Ammo.get_velocity_for_temp and Ammo.calc_powder_sens, executed symbolically from the Python source on every run, equal the model functions (non-zero baseline velocity: 15/v0 is where Python raises ZeroDivisionError, which the model guards explicitly); the guard `if v_delta == 0 or t_delta == 0: raise` is the model's ValueError branch",
     'C17_disabled': 'usePowderSens = false -> velocityForTemp a T = a.mv for every T',
     'C17_linear_anchored': 'usePowderSens = true -> velocityForTemp a T = mv + modifier*(mv/15)*(C(T) - C(T0))',
     'C17_anchored': 'usePowderSens = true -> velocityForTemp a a.powderTemp = a.mv',
